@@ -4,6 +4,7 @@ mod c02;
 mod c03;
 mod c04;
 mod c05;
+mod c06;
 mod c07;
 mod c08;
 mod c14;
@@ -28,6 +29,7 @@ pub fn replay_dispatch(prop: &str, layer: &str, case: &serde_json::Value) -> Res
         "C03" => c03::replay(layer, case),
         "C04" => c04::replay(layer, case),
         "C05" => c05::replay(layer, case),
+        "C06" => c06::replay(layer, case),
         "C07" => c07::replay(layer, case),
         "C08" => c08::replay(layer, case),
         "C14" => c14::replay(layer, case),
@@ -127,6 +129,7 @@ fn main() {
         "C03" => c03::run(&mut run, &ctx),
         "C04" => c04::run(&mut run, &ctx),
         "C05" => c05::run(&mut run, &ctx),
+        "C06" => c06::run(&mut run, &ctx),
         "C07" => c07::run(&mut run, &ctx),
         "C08" => c08::run(&mut run, &ctx),
         "C14" => c14::run(&mut run, &ctx),
